@@ -81,6 +81,9 @@ type env struct {
 	channel       *muc.Channel
 	outConn       *ibb.Conn
 	wedged        bool
+	histClose     int             // close the tracked-history iterator after this many results (<0: never)
+	histSent      int             // tracked-history results the peer has sent (under mu)
+	closeEarly    int             // workload 2: iterator helpers close after this many items (<0: read to the end)
 	closedLocally bool            // the application called Session.Close in this case
 	serveGID      string          // goroutine id of this case's Serve call
 	actionGIDs    map[string]bool // goroutine ids of this case's application calls
@@ -146,7 +149,7 @@ func newEnv(c *core.Case) (*env, error) {
 		return nil, err
 	}
 	e := &env{c: c, p: p, s: p.S, serveDone: make(chan struct{}), sig: make(chan struct{}, 1),
-		obs: map[string]int{}, acts: map[string]*action{}, actionGIDs: map[string]bool{}, libIDs: map[string]string{}, fixedIDs: map[string]bool{}}
+		histClose: -1, closeEarly: -1, obs: map[string]int{}, acts: map[string]*action{}, actionGIDs: map[string]bool{}, libIDs: map[string]string{}, fixedIDs: map[string]bool{}}
 	e.ctx, e.cancel = context.WithCancel(context.Background())
 
 	e.ibbH = &ibb.Handler{}
@@ -283,6 +286,7 @@ func (e *env) peerWrite(s string) {
 	defer e.wmu.Unlock()
 	e.mu.Lock()
 	e.sent = append(e.sent, s...)
+	e.histSent += strings.Count(s, "queryid='q1'") + strings.Count(s, "queryid='qw2'")
 	e.mu.Unlock()
 	e.p.Peer.Write([]byte(s))
 }
@@ -613,6 +617,17 @@ func (e *env) deliverSplit(raw string, cuts []int, cancelAt int, a *action, tail
 		doCancel()
 		e.peerWrite(tail)
 	}
+}
+
+// more is the loop condition of the application's iterator consumers: false
+// once the case's early-close point is reached (the consumer then calls Close
+// without reading the rest, which is what Close is for).
+func (e *env) more(n int) bool {
+	if e.closeEarly >= 0 && n >= e.closeEarly {
+		e.c.Count("iter_closed_early", 1)
+		return false
+	}
+	return true
 }
 
 // settle gives a call whose reply has been processed a moment to return.
